@@ -14,7 +14,7 @@ RULE = ('Hypothesis: identity = any subset of object ids 0-6 and 0x80-0xFF with 
         'non-termination). Every PDU <= 253 bytes; for judged start ids (0 or a populated id of the category) the pages '
         'together hold exactly the configured non-empty objects of the category from the start id on, each once with its '
         'exact value (multiset; read code 4: the one object); other start ids: size bound + termination only. '
-        'Non-trivial: chain of >=2 pages or an extended read with private objects; distinct by SHA-1.')
+        'Non-trivial: chain of >=2 pages or an extended read with private objects; distinct by SHA-1. Values may be blank (white space, NUL, \'0\'); sweep with every object id populated (135 objects, chains of many pages).')
 ASSUMPTIONS = ['an object of >=245 bytes cannot be carried by any 253-byte PDU (7 header bytes + 2 + len), so completeness is only '
                'required of identities whose objects are <=244 bytes; termination and the size bound are required of all',
                'object order inside the answer is not judged (multiset comparison)']
